@@ -75,6 +75,9 @@ def check(ctx):
     # histories: the helpers are pure functions, so what they return for a float64 energy must not depend on an earlier call with the
     # numerically equal energy in another representation (energies e + 3 are used by no other case of this run)
     cases += [{"kind": "history", "e": e + 3.0, "rep": r} for e in es if float(e).is_integer() and e + 3.0 < 2 ** 24 for r in ("float32", "int32", "int")]
+    # the sampling argument in every container a caller can hold it in; the SAME container is used for a series of energies (history) and
+    # must come back untouched
+    cases += [{"kind": "samplings", "container": c_} for c_ in ("tuple", "list", "ndarray-float64", "ndarray-float32", "ndarray-int")]
     cases += [{"kind": "reject", "e": e} for e in (0, 0.0, -1, -1.0, -1e5)]
     cases += [{"kind": "reject", "e": e, "rep": r} for e in (0, -1, -100000) for r in ("float32", "int32", "int64", "array0d-int32")]
     ctx.run(cases, "run_case", batch=50, rule="every grid energy (value checks incl. 8 samplings), every consecutive / 1e-6-neighbour "
@@ -115,6 +118,24 @@ def run_case(case):
         cmp("accelerator/wavelength" + k, acc.wavelength, ref_wavelength(e), "Accelerator(%s).wavelength" % what)
         cmp("accelerator/sigma" + k, acc.sigma, ref_sigma(e), "Accelerator(%s).sigma" % what)
         return {"viol": viol, "obs": "%.9g" % lam, "tr": 8, "err": worst}
+    if case["kind"] == "samplings":
+        import numpy as np
+
+        base = [0.078125, 0.0651, 1.0, 25.0]
+        mk = {"tuple": tuple, "list": list, "ndarray-float64": lambda v: np.array(v, dtype=np.float64), "ndarray-float32": lambda v: np.array(v, dtype=np.float32),
+              "ndarray-int": lambda v: np.array([1, 2, 3, 25], dtype=np.int64)}[case["container"]]
+        arg = mk(base)
+        ref_vals = [float(x) for x in (arg.tolist() if hasattr(arg, "tolist") else arg)]
+        snap = list(ref_vals)
+        for e in (60e3, 100e3, 200e3, 300e3, 100e3):  # the same container for a whole energy series
+            got = EN.reciprocal_space_sampling_to_angular_sampling(arg, e)
+            for s_, a in zip(ref_vals, got):
+                cmp("angular-sampling/container/" + case["container"], float(a), s_ * ref_wavelength(e) * 1e3, "angular sampling of %r 1/A (%s) at %r eV" % (s_, case["container"], e))
+            now = [float(x) for x in (arg.tolist() if hasattr(arg, "tolist") else arg)]
+            if now != snap:
+                viol.append({"key": "angular-sampling/input-modified", "msg": "reciprocal_space_sampling_to_angular_sampling changed the caller's %s: %r -> %r" % (case["container"], snap, now)})
+                break
+        return {"viol": viol[:3], "obs": "samplings", "tr": 5, "err": worst}
     if case["kind"] == "history":
         from ase import units as UN  # the constant set the library itself uses
 
